@@ -9,7 +9,7 @@ func (c *syntaxBasicBoolTypeValidator) validate(values []interface{}) bool {
 		switch values[index].(type) {
 		case bool:
 			foundValue = true
-		case struct{}:
+		case emptyEntityType:
 		default:
 			values[index] = emptyEntity
 		}
